@@ -520,23 +520,31 @@ def rule_R10(ctx):
         b = P.method1(fn.split("::")[0], fn.split("::")[1])
         S = T.Slicer(b, P)
         seen = set()
-        for (rb, j, term, _c) in TB.return_sites(b, P):
+        exits = {}
+        for (rb, j, term, conds_, split_) in TB.return_alternatives(b, P):
             tt = T.strip(term)
             if not (tt[0] == "agg" and tt[3] == "Some"):
                 continue
             sc = [x for x in T.walk(tt) if x[0] == "agg" and x[3] in ("High", "Medium", "Low", "Bad")]
             if not sc or sc[0][3] != "High":
                 continue
-            # every path to this exit is read on its own: several form pairs may share one arm body (`(Value(a), Value(b)) | (Guess(a), Guess(b)) => ..`)
-            trails, trunc = PA.enumerate_paths(b, 0, 3000, stop={rb})
-            trails = [tr for tr in trails if tr[-1] == rb]
-            if trunc or not trails:
-                ctx.cannot("R10", "%s:paths" % fn, "paths to an exact-match exit not enumerable", ctx.loc(b, rb))
-                continue
+            # a value assembled after the arms (`let same = match .. {arm => a == b, ..}; let q = if same {High} else {Low}; Some(q.score())`)
+            # was already split per path, with that path's deciding conditions
+            exits.setdefault(rb, []).append(list(conds_) if split_ else None)
+        for rb, pre in exits.items():
+            if None in pre:
+                # every path to this exit is read on its own: several form pairs may share one arm body (`(Value(a), Value(b)) | (Guess(a), Guess(b)) => ..`)
+                trails, trunc = PA.enumerate_paths(b, 0, 3000, stop={rb})
+                trails = [tr for tr in trails if tr[-1] == rb]
+                if trunc or not trails:
+                    ctx.cannot("R10", "%s:paths" % fn, "paths to an exact-match exit not enumerable", ctx.loc(b, rb))
+                    continue
+                deciding = {a for (a, s_) in C.transitive_controls(b, rb)}
+                cond_lists = [[c for c in (Q._norm_cmp(c) for c in PA.path_conds(P, b, S, tr)) if c[-1] in deciding] for tr in trails]
+            else:
+                cond_lists = pre
             per_path = set()
-            deciding = {a for (a, s_) in C.transitive_controls(b, rb)}
-            for tr in trails:
-                conds = [c for c in (Q._norm_cmp(c) for c in PA.path_conds(P, b, S, tr)) if c[-1] in deciding]
+            for conds in cond_lists:
                 conds = [(c[0], c[1], T.inline_combinators(P, c[2]), T.inline_combinators(P, c[3])) + tuple(c[4:]) if c[0] == "cmp" else c for c in conds]
                 forms = {}
                 for c in conds:
